@@ -178,6 +178,10 @@ BoolSize _ZNKSt8__detail20_Prime_rehash_policy14_M_need_rehashEmmm(RehashPolicy*
     return {false, 0};
 }
 }
+// ---------------------------------------------------------------- libc string scanning not modelled natively by the engine
+extern "C" char* vf_strpbrk(const char* s, const char* accept) asm("strpbrk");
+extern "C" char* vf_strpbrk(const char* s, const char* accept)
+{ for (; *s; ++s) for (const char* a = accept; *a; ++a) if (*s == *a) return (char*)s; return 0; }
 // ---------------------------------------------------------------- std::filesystem::path (only what StatementBuilder's ctor touches)
 extern "C" {
 struct FsPath { Str s; void* impl; };
